@@ -60,12 +60,179 @@ theorem decodeBytes_ge3 (D : LineDecoder σ) (bs : List UInt8) (h : 3 ≤ bs.len
 theorem decodeBytes_nil (D : LineDecoder σ) : decodeBytes D [] = .ok (frame D []) := by
   rfl
 
+/-! ### files too short to carry anything -/
+
+theorem short_files_lose_content (D : LineDecoder σ) (bs : List UInt8) (h1 : 0 < bs.length) (h2 : bs.length < 3) :
+    decodeBytes D bs = decodeBytes D [] := by
+  have hne : bs.isEmpty = false := by cases bs <;> simp_all
+  have h0 : bs.length ≠ 0 := by omega
+  have h3 : ¬ bs.length ≥ 3 := by omega
+  simp [decodeBytes, Sched.ofBytes, decodeSched, hne, readBom, h0, h3]
+
+theorem beq_false_of_length_ne (a b : Str) (h : a.length ≠ b.length) : (a == b) = false := by
+  cases hab : a == b with
+  | false => rfl
+  | true => have : a = b := by simpa using hab
+            subst this; exact absurd rfl h
+
+theorem ofName_short (n : Str) (h : n.length < 5) : Section.ofName n = none := by
+  unfold Section.ofName
+  have e : ∀ m : Str, 5 ≤ m.length → (n == m) = false := fun m hm => beq_false_of_length_ne n m (by omega)
+  repeat' split
+  all_goals first | rfl | (rename_i hh; rw [e _ (by decide)] at hh; cases hh)
+
+theorem stripSuffixChar_length (c : Char) (s r : Str) (h : stripSuffixChar c s = some r) : r.length + 1 = s.length := by
+  induction s generalizing r with
+  | nil => simp [stripSuffixChar] at h
+  | cons x xs ih =>
+    cases xs with
+    | nil =>
+      simp only [stripSuffixChar] at h
+      split at h
+      · cases h; rfl
+      · cases h
+    | cons y ys =>
+      simp only [stripSuffixChar] at h
+      cases hs : stripSuffixChar c (y :: ys) with
+      | none => simp [hs] at h
+      | some r' =>
+        simp [hs] at h
+        subst h
+        have := ih r' hs
+        simp at this ⊢
+        omega
+
+theorem tryFromLine_short (l : Str) (h : l.length < 7) : Section.tryFromLine l = none := by
+  unfold Section.tryFromLine
+  cases l with
+  | nil => rfl
+  | cons c rest =>
+    simp only []
+    split
+    · cases hs : stripSuffixChar ']' rest with
+      | none => rfl
+      | some name =>
+        simp only []
+        have := stripSuffixChar_length _ _ _ hs
+        exact ofName_short name (by simp at h; omega)
+    · rfl
+
+theorem startsWith_short (l p : Str) (h : l.length < p.length) : startsWith l p = false := by
+  induction l generalizing p with
+  | nil => cases p <;> simp_all [startsWith]
+  | cons c cs ih =>
+    cases p with
+    | nil => simp at h
+    | cons q qs => simp [startsWith, ih qs (by simp at h; omega)]
+
+theorem tryVersion_short (l : Str) (h : l.length < 7) : tryVersionFromLine l = if l.isEmpty then .cont else .bad := by
+  unfold tryVersionFromLine
+  rw [startsWith_short l versionPrefix (by have : versionPrefix.length = 17 := by decide
+                                           omega)]
+  simp
+
+theorem findFirstSection_short (ls : List Str) (h : ∀ l ∈ ls, l.length < 7) : (findFirstSection ls).1 = none := by
+  induction ls with
+  | nil => rfl
+  | cons l rest ih =>
+    simp only [findFirstSection, tryFromLine_short l (h l (by simp))]
+    exact ih (fun x hx => h x (by simp [hx]))
+
+/-- a file all of whose lines are shorter than the shortest header carries nothing. -/
+theorem frame_short (D : LineDecoder σ) (ls : List Str) (h : ∀ l ∈ ls, l.length < 7) :
+    frame D ls = D.create latestVersion := by
+  unfold frame
+  have pv : ∀ ls : List Str, (∀ l ∈ ls, l.length < 7) →
+      (parseVersion ls).1 = none ∧ (∀ l ∈ (parseVersion ls).2.2.2, l.length < 7) ∧ (parseVersion ls).2.2.1.length < 7 := by
+    intro ls
+    induction ls with
+    | nil => intro _; simp [parseVersion]
+    | cons l rest ih =>
+      intro hh
+      simp only [parseVersion, tryVersion_short l (hh l (by simp))]
+      by_cases he : l.isEmpty = true
+      · simp only [he, if_true]
+        exact ih (fun x hx => hh x (by simp [hx]))
+      · simp only [he, Bool.false_eq_true, if_false]
+        exact ⟨trivial, fun x hx => hh x (by simp [hx]), hh l (by simp)⟩
+  obtain ⟨p1, p2, p3⟩ := pv ls h
+  cases hp : parseVersion ls with
+  | mk v r1 =>
+    obtain ⟨u, curr, rest⟩ := r1
+    rw [hp] at p1 p2 p3
+    simp only at p1 p2 p3
+    subst p1
+    simp only [Option.getD]
+    have ff := findFirstSection_short rest p2
+    unfold parseFirstSection
+    cases u with
+    | false =>
+      simp only [Bool.false_eq_true, if_false]
+      cases hf : findFirstSection rest with
+      | mk o r => rw [hf] at ff; simp only at ff; subst ff; rfl
+    | true =>
+      simp only [if_true, tryFromLine_short curr p3]
+      cases hf : findFirstSection rest with
+      | mk o r => rw [hf] at ff; simp only at ff; subst ff; rfl
+
+theorem linesBy_piece_length {α : Type} (p : α → Bool) (xs : List α) : ∀ l ∈ linesBy p xs, l.length ≤ xs.length := by
+  induction xs with
+  | nil => simp [linesBy]
+  | cons a as ih =>
+    intro l hl
+    simp only [linesBy] at hl
+    split at hl
+    · simp only [List.mem_cons] at hl
+      cases hl with
+      | inl h => subst h; simp
+      | inr h => have := ih l h; simp; omega
+    · cases hL : linesBy p as with
+      | nil => rw [hL] at hl; simp [consHead] at hl; subst hl; simp
+      | cons l0 ls =>
+        rw [hL] at hl ih
+        simp only [consHead, List.mem_cons] at hl
+        cases hl with
+        | inl h => subst h; have := ih l0 (by simp); simp; omega
+        | inr h => have := ih l (by simp [h]); simp; omega
+
+theorem utf8LossyFuel_length (fuel : Nat) (bs : List UInt8) : (utf8LossyFuel fuel bs).length ≤ fuel := by
+  induction fuel generalizing bs with
+  | zero => simp [utf8LossyFuel]
+  | succ n ih =>
+    cases bs with
+    | nil => simp [utf8LossyFuel]
+    | cons b0 rest =>
+      simp only [utf8LossyFuel]
+      repeat' split
+      all_goals simp only [List.length_cons, List.length_nil]
+      all_goals first | omega | (apply Nat.succ_le_succ; exact ih _)
+
+theorem trimEnd_length (s : Str) : (trimEnd s).length ≤ s.length := by
+  induction s with
+  | nil => simp [trimEnd]
+  | cons c cs ih =>
+    simp only [trimEnd]
+    cases h : trimEnd cs with
+    | nil => simp only []; split <;> simp
+    | cons x xs => rw [h] at ih; simp at ih ⊢; omega
+
+/-- no line is longer (in characters) than the file is (in bytes). -/
+theorem utf8_line_length (bs : List UInt8) : ∀ l ∈ (linesOf .utf8 bs).1, l.length ≤ bs.length := by
+  rw [linesOf_eq, linesSpec_rawLines .utf8 rfl]
+  intro l hl
+  simp only [List.mem_map] at hl
+  obtain ⟨raw, hr, rfl⟩ := hl
+  have h1 := linesBy_piece_length isLFb bs raw hr
+  have h2 := utf8LossyFuel_length raw.length raw
+  have h3 := trimEnd_length (utf8Lossy raw)
+  simp only [currLine, Encoding.decode]
+  unfold utf8Lossy at h3 ⊢
+  omega
+
 /-! ### (a) the UTF-8 BOM -/
 
-/-- **A UTF-8 BOM in front of a file changes nothing**, for files that do not themselves start
-with one of the three byte-order marks (a second BOM is content) and have at least three bytes
-(shorter files: see `short_files_lose_content`). -/
-theorem utf8_bom_transparent (D : LineDecoder σ) (bs : List UInt8)
+/-- files of at least three bytes (or none); shorter ones: `utf8_bom_transparent_short`. -/
+theorem utf8_bom_transparent_ge3 (D : LineDecoder σ) (bs : List UInt8)
     (hb : (Encoding.fromBom bs).2 = 0) (hl : 3 ≤ bs.length ∨ bs = []) :
     decodeBytes D (utf8Bom ++ bs) = decodeBytes D bs := by
   have e : decodeBytes D (utf8Bom ++ bs) =
@@ -81,6 +248,39 @@ theorem utf8_bom_transparent (D : LineDecoder σ) (bs : List UInt8)
   | inr h0 =>
     subst h0
     rw [decodeBytes_nil, linesOf_eq, linesSpec_nil]
+
+/-- a file of one or two bytes: with a BOM in front its one or two characters reach the framing,
+which finds neither version nor header in them; without, the BOM sniffing consumes them. Same outcome. -/
+theorem utf8_bom_transparent_short (D : LineDecoder σ) (bs : List UInt8) (h2 : bs.length < 3) :
+    decodeBytes D (utf8Bom ++ bs) = decodeBytes D bs := by
+  have e : decodeBytes D (utf8Bom ++ bs) =
+      match linesOf .utf8 bs with
+      | (_, some k) => .error k
+      | (ls, none) => .ok (frame D ls) := by
+    rw [decodeBytes_ge3 D _ (by simp [utf8Bom])]
+    simp only [utf8Bom, List.cons_append, List.nil_append, fromBom_utf8, List.drop_succ_cons, List.drop_zero] <;> rfl
+  have hs : ∀ l ∈ (linesOf .utf8 bs).1, l.length < 7 := fun l hl => by
+    have := utf8_line_length bs l hl; omega
+  have hn : (linesOf .utf8 bs).2 = none := by rw [linesOf_eq, linesSpec_rawLines .utf8 rfl]
+  rw [e]
+  cases hl : linesOf .utf8 bs with
+  | mk ls eo =>
+    rw [hl] at hs hn
+    simp only at hs hn
+    subst hn
+    simp only []
+    rw [frame_short D ls hs]
+    by_cases h0 : bs = []
+    · subst h0; rw [decodeBytes_nil, frame_short D [] (by simp)]
+    · rw [short_files_lose_content D bs (by cases bs <;> simp_all) h2, decodeBytes_nil, frame_short D [] (by simp)]
+
+/-- **A UTF-8 BOM in front of a file changes nothing** — every file that does not itself start
+with a byte-order mark (a second BOM is content). -/
+theorem utf8_bom_transparent (D : LineDecoder σ) (bs : List UInt8) (hb : (Encoding.fromBom bs).2 = 0) :
+    decodeBytes D (utf8Bom ++ bs) = decodeBytes D bs := by
+  by_cases h3 : 3 ≤ bs.length
+  · exact utf8_bom_transparent_ge3 D bs hb (Or.inl h3)
+  · exact utf8_bom_transparent_short D bs (by omega)
 
 example : (Encoding.fromBom [0x5B, 0x47, 0x5D, 0x0A]).2 = 0 ∧ 3 ≤ [0x5B, 0x47, 0x5D, (0x0A : UInt8)].length := by decide
 
@@ -171,7 +371,7 @@ theorem utf16_transparent_partial (D : LineDecoder σ) (t : Str) (h : noStrayLF 
       | (_, some k) => .error k
       | (ls, none) => .ok (frame D ls) := by
     rw [decodeBytes_ge3 D _ h3, hb, fromBom_none_utf8 _ hb, List.drop_zero, utf8_lines]
-  refine ⟨?_, ?_, utf8_bom_transparent D _ hb (Or.inl h3)⟩
+  refine ⟨?_, ?_, utf8_bom_transparent_ge3 D _ hb (Or.inl h3)⟩
   · rw [r8, decodeBytes_ge3 D _ (by have := hlen true; simp [utf16leBom]; omega)]
     simp only [utf16leBom, List.cons_append, List.nil_append, fromBom_le, List.drop_succ_cons, List.drop_zero]
     rw [utf16le_lines_partial t h]
@@ -306,6 +506,15 @@ theorem surrogate_replaced_high (u : Nat) (rest : List Nat) (h : isHigh u = true
   cases rest with
   | nil => simp [decodeUtf16, h]
   | cons u2 r => simp [decodeUtf16, h, hl, hn u2 r rfl]
+
+/-- **unpaired surrogates are replaced by U+FFFD** (both kinds), one replacement per unit, and the
+following unit is decoded on its own. -/
+theorem surrogate_replaced (u : Nat) (rest : List Nat)
+    (h : isLow u = true ∨ (isHigh u = true ∧ ∀ u2 r, rest = u2 :: r → isLow u2 = false)) :
+    decodeUtf16 (u :: rest) = replacement :: decodeUtf16 rest := by
+  cases h with
+  | inl hl => exact surrogate_replaced_low u rest hl
+  | inr hh => exact surrogate_replaced_high u rest hh.1 hh.2
 
 /-- a well-formed pair is one astral character. -/
 theorem surrogate_pair_decoded (u u2 : Nat) (rest : List Nat) (h : isHigh u = true) (h2 : isLow u2 = true) :
